@@ -24,7 +24,7 @@ ASSUMPTIONS = ['derived quantities must agree to 1e-10 relative (same floating-p
                'the canonical sequence of the oracle ends with an orbital-frequency change so that everything is recomputed']
 OPS = ['h_spin', 'h_obl', 'h_spin_obl', 'orb_e', 'orb_P', 'orb_n', 'orb_a', 'orb_eP', 'orb_set_e', 'orb_set_n', 'orb_set_P', 'orb_set_a', 'w_spin', 'w_obl', 'w_e', 'w_P', 'w_n', 'w_spin_obl', 'w_e_obl', 'w_all',
        'set_spin', 'set_obl', 'prop_obl', 'fixq', 'fixdt', 'temp', 'time']
-REUSE_ALL = False     # work-array reuse is driven for the eccentricity only (see DESIGN.md, round f)
+REUSE_ALL = True      # work-array reuse is driven for the eccentricity only (see DESIGN.md, round f)
 KINDS = ['cpl', 'cpl_sync', 'ctl', 'layered', 'layered_andrade', 'dual_cpl', 'dual_cpl_sync']
 
 
@@ -316,6 +316,11 @@ def eval_case(c):
         # they were given earlier; touching those without telling them would be the caller's error, not a history dependence)
         uses = {'orb_e': 'e', 'orb_set_e': 'e', 'w_e': 'e', 'orb_P': 'P', 'orb_set_P': 'P', 'w_P': 'P', 'orb_eP': 'eP', 'w_spin': 's', 'w_obl': 'o', 'set_obl': 'o', 'prop_obl': 'o',
                 'w_spin_obl': 'so', 'w_e_obl': 'eo', 'w_all': 'ePso'}.get(op, '')
+        # operations that do not apply to this kind are skipped BEFORE any work array is overwritten (overwriting an array the world still refers to and
+        # then not passing it would be the caller's error and produced spurious differences in the first version of the all-quantity variant)
+        if (op in ('w_spin', 'w_spin_obl', 'set_spin') and sync) or (op in ('h_spin', 'h_obl', 'h_spin_obl') and getattr(w, '_verif_host', None) is None) or \
+                (op == 'fixq' and (layered or kind.startswith('ctl'))) or (op == 'fixdt' and not kind.startswith('ctl')) or (op == 'temp' and not layered):
+            return False
         e, P, sp, ob = (val(0.01, 0.3, 'e' if 'e' in uses else None), val(2., 60., 'P' if 'P' in uses and REUSE_ALL else None), val(1., 40., 'sp' if 's' in uses and REUSE_ALL else None),
                         val(0., 0.5, 'ob' if 'o' in uses and REUSE_ALL else None))
         q, dt, T = float(rng.uniform(5, 500)), float(rng.uniform(1, 1e3)), float(rng.uniform(1300, 1750))
